@@ -427,7 +427,7 @@ static std::vector<SupportCase> build_support_cases(ElossWorld& W, bool thorough
         for (double a : alphas)
             for (double b : betas)
             {
-                if (!thorough && b != 1.0 && a != 0.5 && a != 5.0)
+                if (!thorough && b != 1.0 && a != 0.5 && a != 5.0 && a != 1.0)
                     continue;
                 add("gamma", fmt("alpha=%g,beta=%g", a, b), 0, [a, b](Eng& e, Obs& o, uint64_t k) {
                     GammaDistribution<double> d(a, b);
@@ -1824,7 +1824,13 @@ static std::vector<QuadCase> build_quad_cases(ElossWorld& W, bool thorough)
 
     //// Gamma: lattice on the two uniforms of the first normal, everything else from the tail ////
     {
-        std::vector<std::pair<double, double>> ab = {{0.1, 1}, {0.5, 1}, {0.99, 1}, {1, 1}, {1.01, 1}, {2, 1}, {5, 10}, {100, 1e-3}};
+        // FULL cross of the shape letters (both sides of and exactly at the alpha = 1 switch-over)
+        // with the scale letters: a slip in how ONE branch uses the scale (rate instead of
+        // scale, scale dropped) is invisible at beta = 1
+        std::vector<std::pair<double, double>> ab;
+        for (double a : {0.1, 0.5, 0.99, 1.0, 1.01, 2.0, 5.0, 100.0})
+            for (double b : {1.0, 0.5, 3.0, 1e-3})
+                ab.push_back({a, b});
         for (auto p : ab)
         {
             double a = p.first, b = p.second;
@@ -1899,7 +1905,8 @@ static std::vector<QuadCase> build_quad_cases(ElossWorld& W, bool thorough)
                              trunc_cdf(m, s), 1, true);
             });
         }
-        for (auto p : std::vector<std::pair<double, double>>{{0.1, 0.14}, {1, 0.3}})
+        // incl. shape k = mean^2/var exactly 1 with scale var/mean = 0.5, 1 and 3
+        for (auto p : std::vector<std::pair<double, double>>{{0.1, 0.14}, {1, 0.3}, {0.5, 0.25}, {1, 1}, {3, 9}})
         {
             double m = p.first, v = p.second;
             add("eloss-gamma", fmt("mean=%g,var=%g", m, v), [=](Quad& Q) {
